@@ -390,10 +390,11 @@ def _menus():
     for n, e, dg, a, npa, t in ((12, 18, 5, 2, 3, 7), (36, 72, 5, 3, 4, 70), (12, 18, 5, 2, 3, 2),
                                 (12, 18, 5, 3, 2, 30), (12, 18, 5, 2, 3, 1)):
         add("MMST", f"n{n}e{e}a{a}k{npa}t{t}",
-            lambda n=n, e=e, dg=dg, a=a, npa=npa, t=t, time_limit=None, **k: E.MMST(
+            lambda n=n, e=e, dg=dg, a=a, npa=npa, t=t, time_limit=None, max_step=None, **k: E.MMST(
                 generator=SplitRandomGenerator(
                     num_nodes=n, num_edges=e, max_degree=dg, num_agents=a, num_nodes_per_agent=npa,
-                    max_step=t if time_limit is None else time_limit),
+                    # max_step override (C11 only): the generator's route buffer decoupled from the time limit
+                    max_step=max_step if max_step is not None else (t if time_limit is None else time_limit)),
                 time_limit=t if time_limit is None else time_limit),
             nodes=n, edges=e, agents=a, per_agent=npa, time_limit=t)
     from jumanji.environments.routing.multi_cvrp.generator import UniformRandomGenerator as MCGen
